@@ -148,6 +148,14 @@ CHECKS = {
             "body, corrupted => NAK, not delivered, failure reported, following messages still pass, nothing hangs.",
             "Only one side transmits at a time (the statement's assumption); length-byte corruption is a recorded known finding (no T1/T2).",
             "DESIGN.md 3/C17"),
+    "C20": ("model_checking", "vrt+explore", "stateless delay- and cut-bounded exploration of two real GEM handlers joined by a virtual link",
+            "A real GemHostHandler and a real GemEquipmentHandler (each on a real HsmsProtocol) are joined by an in-memory link; for every "
+            "configuration (active side x enable order x equipment initial control state) the script - both reach COMMUNICATING within "
+            "T5+T6+2(T3+delay) virtual seconds, eleven host service calls compared with the equipment's own tables, subscribe + trigger => exactly "
+            "one collection_event_received, go offline/online, remote command, restart of the host, restart of the equipment, all again - is "
+            "executed for every assignment of <= 1 segment cut; the start-up handshake (and one services phase, thorough: the full script) is "
+            "explored under every schedule with <= 1 delay at the runtime's operations.",
+            "Link connect latency is zero; no line-level scheduling points (13+ threads); K = 1.", "DESIGN.md 3/C20"),
 }
 
 NOT_YET = "check not built yet in this revision of /verif (see DESIGN.md section 6 build order)"
